@@ -692,6 +692,10 @@ func (m *Dense) Kronecker(a, b Matrix) {
 	rb, cb := b.Dims()
 
 	m.reuseAsNonZeroed(ra*rb, ca*cb)
+	aU, _ := untransposeExtract(a)
+	bU, _ := untransposeExtract(b)
+	m.checkOverlapMatrix(aU)
+	m.checkOverlapMatrix(bU)
 	for i := 0; i < ra; i++ {
 		for j := 0; j < ca; j++ {
 			m.slice(i*rb, (i+1)*rb, j*cb, (j+1)*cb).Scale(a.At(i, j), b)
